@@ -66,12 +66,14 @@ Proof. exact readonly_seq. Qed.
 Print Assumptions c20_readonly_commands.
 
 (* ... with the output location computed once from the initial budget: it cannot move, because the settings
-   file that defines it is itself outside it *)
+   file that defines it is itself outside it (every `up` of the sequence designating the budget the same way:
+   all by auto-detection, or all by the same explicit config directory / TALLY_CONFIG) *)
 Theorem c20_readonly_commands_fixed_output :
-  forall o p cs st,
+  forall o p cfg cs st,
     forallb readonly cs = true ->
+    (forall c, In c cs -> is_up c = true -> cmd_cfg c = cfg) ->
     (forall c, In c cs -> ~ In p (report_paths o c st)) ->
-    (forall c root s, In c cs -> up_context o st = Some (root, s) ->
+    (forall c root s, In c cs -> up_context o cfg st = Some (root, s) ->
                       ~ In (root ++ P_SETTINGS) (report_paths o c st)) ->
     fget (run_seq o cs st) p = fget st p.
 Proof. exact readonly_seq_stable. Qed.
@@ -79,14 +81,14 @@ Print Assumptions c20_readonly_commands_fixed_output.
 
 (* explain / discover / diag / inspect / workflow / reference / update-without-consent have no report files *)
 Theorem c20_no_output_commands :
-  forall o c st, match c with Up _ _ _ _ | Init _ => True | _ => report_paths o c st = [] /\ run o c st = st end.
+  forall o c st, match c with Up _ _ _ _ _ | Init _ => True | _ => report_paths o c st = [] /\ run o c st = st end.
 Proof. intros o c st. destruct c; try exact I; split; reflexivity. Qed.
 Print Assumptions c20_no_output_commands.
 
 (* the only directory a read-only command can create is the output directory *)
 Theorem c20_readonly_dirs :
   forall o c st d, readonly c = true -> In d (dirs (run o c st)) ->
-    In d (dirs st) \/ exists root s, up_context o st = Some (root, s) /\ d = root ++ sf_output_dir s.
+    In d (dirs st) \/ exists root s, up_context o (cmd_cfg c) st = Some (root, s) /\ d = root ++ sf_output_dir s.
 Proof. exact readonly_dirs. Qed.
 Print Assumptions c20_readonly_dirs.
 
@@ -125,7 +127,7 @@ Proof. intros o c st e H. exact (proj2 (effects_allowed o c st e H)). Qed.
 Print Assumptions c20_migration_only_on_request.
 
 Theorem c20_up_without_migrate_only_reports :
-  forall o emb f out st e, In e (effects o (Up false emb f out) st) -> eff_owner e = OReport \/ eff_owner e = OOutDir.
+  forall o cfg emb f out st e, In e (effects o (Up cfg false emb f out) st) -> eff_owner e = OReport \/ eff_owner e = OOutDir.
 Proof. exact up_nomigrate_effects. Qed.
 Print Assumptions c20_up_without_migrate_only_reports.
 
@@ -149,13 +151,13 @@ Print Assumptions c20_migration_keeps_rules_file_refuted.
 
 (* strongest version that holds: every other file is kept (and both are kept when the run does not migrate) *)
 Theorem c20_migration_only_on_request_with_backup_partial :
-  forall o emb f out st root s q c0,
-    up_context o st = Some (root, s) ->
+  forall o cfg emb f out st root s q c0,
+    up_context o cfg st = Some (root, s) ->
     fget st q = Some c0 ->
-    ~ In q (report_paths o (Up true emb f out) st) ->
-    ~ In (root ++ P_BAK) (report_paths o (Up true emb f out) st) ->
+    ~ In q (report_paths o (Up cfg true emb f out) st) ->
+    ~ In (root ++ P_BAK) (report_paths o (Up cfg true emb f out) st) ->
     ((q <> root ++ P_BAK /\ q <> root ++ P_RULES) \/ csv_format st root s = false) ->
-    kept root (run o (Up true emb f out) st) q c0.
+    kept root (run o (Up cfg true emb f out) st) q c0.
 Proof. exact migrate_keeps_partial. Qed.
 Print Assumptions c20_migration_only_on_request_with_backup_partial.
 
@@ -179,7 +181,7 @@ Qed.
 
 (* a read-only sequence on the witness budget really writes a report, and safe_for holds for the settings file *)
 Example ex_readonly_nontrivial :
-  let cs := [Up false true FHtml None; Explain; Up false false FHtml None; Discover] in
+  let cs := [Up None false true FHtml None; Explain; Up (Some "") false false FHtml None; Discover] in
   forallb readonly cs = true /\
   safe_for w_oracle "config/settings.yaml" cs w_up_state /\
   fget (run_seq w_oracle cs w_up_state) "output/spending_summary.html" = Some "<html>" /\
@@ -192,8 +194,8 @@ Qed.
 
 (* up --migrate on the witness budget migrates and appends to settings; settings is kept in the "suffix" sense *)
 Example ex_up_migrate :
-  fget (run w_oracle (Up true true FHtml None) w_up_state) "config/settings.yaml"
+  fget (run w_oracle (Up None true true FHtml None) w_up_state) "config/settings.yaml"
     = Some ("year: 2025" ++ MIG_SUFFIX) /\
-  fget (run w_oracle (Up true true FHtml None) w_up_state) "config/merchants.rules" = Some "[Netflix]" /\
-  fget (run w_oracle (Up false true FHtml None) w_up_state) "config/merchants.rules" = Some "[Mine]".
+  fget (run w_oracle (Up None true true FHtml None) w_up_state) "config/merchants.rules" = Some "[Netflix]" /\
+  fget (run w_oracle (Up None false true FHtml None) w_up_state) "config/merchants.rules" = Some "[Mine]".
 Proof. vm_compute. repeat split. Qed.
